@@ -255,6 +255,80 @@ def solveDeterm {σ : Type} (g : Gen σ) (spec : Option PSpec) (solve : List Rat
   | none => (.inl (solve w.1), w)
   | some sp => ((.inr (simulateParam g ⟨sp, solve⟩ n w).1), (simulateParam g ⟨sp, solve⟩ n w).2)
 
+/-! ### the model OBJECT across calls: what the `parameters` setter records
+
+`_stochasticParam` is part of the object, not of a call: the setter decides what it holds, every entry point reads it.
+Mirrored from `BaseOdeModel.parameters` (base_ode_model.py, after fix cc23e1d):
+
+* a dict with at least one distribution-valued entry: the entries are walked in order (numbers stored, distributions
+  sampled) and THE DICT becomes the record, whatever was recorded before;
+* a dict of plain numbers: the numbers are stored; the names given drop out of the record, and when no distribution is
+  left in it the record is cleared (a record of `None` stays `None`);
+* any other accepted form (list / array of numbers, list of `(name, number)` pairs): numbers for ALL parameters, the record
+  is cleared;
+* the redraw `self.parameters = self._stochasticParam` hands the recorded dict itself over: the record is left alone. -/
+
+/-- what the setter is handed -/
+inductive Assign
+  | dict (d : PSpec)        -- a dict, in its own (insertion) order
+  | all (vs : List Rat)     -- numbers for all parameters, in `param_list` order
+deriving Repr, Inhabited
+
+def PEntry.isRandom : PEntry → Bool
+  | .random => true
+  | .fixed _ => false
+
+def hasRandom (d : PSpec) : Bool := d.any (fun e => e.2.isRandom)
+
+/-- the record after a dict `d` of plain numbers -/
+def clearRecord (rec : Option PSpec) (d : PSpec) : Option PSpec :=
+  match rec with
+  | none => none
+  | some r =>
+    let left := r.filter (fun e => !((d.map Prod.fst).contains e.1))
+    if hasRandom left then some left else none
+
+/-- the part of the model object the stochastic entry points read and write: `_paramValue` and `_stochasticParam` -/
+structure Obj where
+  cur : List Rat
+  record : Option PSpec
+deriving Repr, Inhabited
+
+/-- `model.parameters = …` -/
+def setParams {σ : Type} (g : Gen σ) (a : Assign) (o : Obj) (st : σ) : Obj × σ :=
+  match a with
+  | .all vs => (⟨vs, none⟩, st)
+  | .dict d =>
+    if hasRandom d then (⟨(redraw g d o.cur st).1, some d⟩, (redraw g d o.cur st).2)
+    else (⟨assign d [] o.cur, clearRecord o.record d⟩, st)
+
+/-- a sequence of assignments -/
+def setMany {σ : Type} (g : Gen σ) : List Assign → Obj → σ → Obj × σ
+  | [], o, st => (o, st)
+  | a :: as, o, st => setMany g as (setParams g a o st).1 (setParams g a o st).2
+
+/-- one `_jump` of the object: the record in force decides whether parameters are redrawn -/
+def jumpObj {σ : Type} (g : Gen σ) (m : JumpModel) (o : Obj) (st : σ) : JumpOut × (Obj × σ) :=
+  let r := jumpOnce g { m with spec := o.record } (o.cur, st)
+  (r.1, (⟨r.2.1, o.record⟩, r.2.2))
+
+/-- `integrate(t)` of the object: a redraw when a record is in force, else a plain integration -/
+def integrateObj {σ : Type} (g : Gen σ) (solve : List Rat → Sol) (o : Obj) (st : σ) : IntOut × (Obj × σ) :=
+  match o.record with
+  | none => (⟨solve o.cur, [], o.cur⟩, (o, st))
+  | some sp =>
+    let r := integrateS g ⟨sp, solve⟩ (o.cur, st)
+    (r.1, (⟨r.2.1, some sp⟩, r.2.2))
+
+/-- the setter as it was before fix cc23e1d: the record is only ever replaced by a dict with distributions, never
+cleared (kept for `stale_record_redraws_counterexample`) -/
+def setParamsLegacy {σ : Type} (g : Gen σ) (a : Assign) (o : Obj) (st : σ) : Obj × σ :=
+  match a with
+  | .all vs => (⟨vs, o.record⟩, st)
+  | .dict d =>
+    if hasRandom d then (⟨(redraw g d o.cur st).1, some d⟩, (redraw g d o.cur st).2)
+    else (⟨assign d [] o.cur, o.record⟩, st)
+
 /-! ### a second, foreign source (what the property excludes) -/
 
 /-- a generator that serves the requests selected by `foreign` from a SECOND state `τ` (an unseeded `RandomState()`,
